@@ -3529,6 +3529,9 @@ class Parser:
             self._prev.text.upper() if self._match_texts(self.DESCRIBE_STYLES) else None
         )
         if self._match(TokenType.DOT):
+            if style is None:
+                # The word taken as the kind is the first part of a dotted name (DESCRIBE schema.tbl)
+                kind = None
             style = None
             self._retreat(self._index - 2)
 
